@@ -114,7 +114,9 @@ type Machine struct {
 	Deviation string
 	// KnownClasses lists the finding classes that are currently excluded.
 	KnownClasses map[string]bool
-	Stopped   bool
+	Stopped      bool
+	// Handlers counts the error handlers of errordict that were run.
+	Handlers int
 	// DictOrderOK is set by a generator that only produces order-insensitive
 	// forall bodies for dictionaries.
 	DictOrderOK bool
@@ -124,7 +126,7 @@ type Machine struct {
 	// TypeLiteral makes `type` return a literal name (input class of a listed
 	// finding; the PLRM says executable).
 	TypeLiteral bool
-	OpsUsed   map[string]int
+	OpsUsed     map[string]int
 }
 
 // StandardEncodingNames must be set by the user of the package (the harness
@@ -411,7 +413,25 @@ func (m *Machine) callOp(name string) *PSError {
 		m.Unsupported = "operator " + name + " is not modelled"
 		return perr("unregistered", "%s", name)
 	}
-	return fn(m)
+	err := fn(m)
+	if err != nil && m.Ambiguous == "" && m.Unsupported == "" {
+		// an error raised by an operator runs the procedure stored under the
+		// error's name in errordict (PLRM 3.11); only procedures a program
+		// stored there are modelled, the default handlers end the run.  What
+		// the operand stack holds at that moment is not compared (the PLRM
+		// restores the operands, the library has popped some of them): sound
+		// handlers start with cleartomark.
+		if h, ok := m.ErrorD.M[err.Name]; ok && h.IsProc() {
+			m.Handlers++
+			if m.Handlers > 4 {
+				m.Ambiguous = "error handlers nested or repeated more than 4 times"
+				return err
+			}
+			m.es = append(m.es, &frame{kind: fProc, proc: h})
+			return nil
+		}
+	}
+	return err
 }
 
 // ---------------------------------------------------------------------------
